@@ -224,6 +224,7 @@ static void parse_x86_ops(Env& E, std::istringstream& ss, int nops, bool may_bin
       if (bcst) m.set_broadcast(x86::Mem::Broadcast(bcst));
       if (addr == "abs") m.set_addr_abs();
       else if (addr == "rel") m.set_addr_rel();
+      if (p.size() >= 12 && p[11] == "1") m.set_reg_home();
       P.ops[i] = m;
     }
     else P.bad = true;
@@ -382,6 +383,19 @@ int main(int argc, char** argv) {
 
     std::string id, kind, flags_s, arch;
     ss >> id >> kind >> flags_s >> arch;
+    // layout of the logger line: <kind>@<indentation>,<padding of a regular line>,<padding of the machine code>,<inline comment 0|1|2>
+    uint32_t lay_indent = 0, lay_pad = 0, lay_padmc = 0, lay_comment = 0;
+    {
+      size_t at = kind.find('@');
+      if (at != std::string::npos) {
+        std::vector<std::string> lp = split(kind.substr(at + 1), ',');
+        kind = kind.substr(0, at);
+        if (lp.size() >= 4) { lay_indent = (uint32_t)atoi(lp[0].c_str()); lay_pad = (uint32_t)atoi(lp[1].c_str()); lay_padmc = (uint32_t)atoi(lp[2].c_str()); lay_comment = (uint32_t)atoi(lp[3].c_str()); }
+      }
+    }
+    std::string comment_text;
+    if (lay_comment == 1) comment_text = "c20#" + id + " note";
+    else if (lay_comment == 2) { comment_text = "c20#" + id + " "; while (comment_text.size() < 1100) comment_text += char('a' + comment_text.size() % 26); }
     int ai = arch_index(arch);
     int ki = kind == "asm" ? 0 : (kind == "fc" || kind == "fb") ? 2 : 1;
     if (ai < 0) { out += "{\"id\":" + id + ",\"parse\":1,\"res\":[]}\n"; continue; }
@@ -395,6 +409,129 @@ int main(int argc, char** argv) {
     std::vector<Res> results;
     uint32_t real_id = 0;
     int lookup_miss = 0, parse_bad = 0;
+
+    // ---- directives: bind / align / embed / embed_data_array / embed_label / embed_label_delta / section / comment
+    //      dir : on the logging Assembler (log text + bytes appended);  dirn : on the Compiler, the new nodes printed by Formatter::format_node
+    if (kind == "dir" || kind == "dirn") {
+      bool nodes = kind == "dirn";
+      Env& D = env_of(ai, nodes ? 2 : 0);
+      std::string out_rec = "{\"id\":" + id + ",\"parse\":0,\"res\":[";
+      unsigned run = 0;
+      for (uint32_t ff : flag_sets) {
+        if (!nodes && ++D.n > 1500) D.reinit();
+        std::istringstream rs(rest);
+        std::string what; rs >> what;
+        BaseEmitter* em = D.emitter();
+        BaseAssembler* as = nodes ? nullptr : D.assembler();
+        BaseBuilder* bb = nodes ? (ai == 2 ? (BaseBuilder*)&D.ac : (BaseBuilder*)&D.xc) : nullptr;
+        D.logger.set_flags(FormatFlags(ff));
+        D.logger.set_indentation(FormatIndentationGroup::kCode, lay_indent);
+        D.logger.set_indentation(FormatIndentationGroup::kLabel, lay_indent);
+        D.logger.set_padding(FormatPaddingGroup::kRegularLine, lay_pad);
+        D.logger.set_padding(FormatPaddingGroup::kMachineCode, lay_padmc);
+        std::vector<uint32_t> labs;
+        Error err = Error::kOk;
+        size_t off0 = 0;
+        BaseNode* before = nullptr;
+        bool bad = false;
+        char sfx[24]; snprintf(sfx, sizeof sfx, "_%s_%u", id.c_str(), run++);
+        auto mark = [&]() { D.logger.clear(); if (as) off0 = as->offset(); if (bb) before = bb->cursor(); D.eh.calls = 0; };
+        mark();
+        Section* back_to = nullptr;
+        if (what == "bind") {
+          std::string lk, name; rs >> lk >> name; name += sfx;
+          Label l;
+          if (lk == "a") l = em->new_label();
+          else if (lk == "n") l = em->new_named_label(name.c_str(), name.size(), LabelType::kAnonymous);
+          else if (lk == "g") l = em->new_named_label(name.c_str(), name.size(), LabelType::kGlobal);
+          else if (lk == "l") {
+            std::string pn = "p_" + name;
+            Label p = em->new_named_label(pn.c_str(), pn.size(), LabelType::kGlobal);
+            labs.push_back(p.id());
+            l = em->new_named_label(name.c_str(), name.size(), LabelType::kLocal, p.id());
+          }
+          else bad = true;
+          labs.insert(labs.begin(), l.id());
+          mark();
+          if (lay_comment && as) em->set_inline_comment(comment_text.c_str());     // (a Builder keeps a pending comment for the next instruction)
+          if (!bad) err = em->bind(l);
+        }
+        else if (what == "align") {
+          uint32_t mode = 0, n = 0; rs >> mode >> n;
+          // an odd offset first, so that padding is needed
+          uint8_t one = 0x90; if (as && (as->offset() % 2) == 0 && ai != 2) em->embed(&one, 1);
+          mark();
+          err = em->align(AlignMode(mode), n);
+        }
+        else if (what == "embed") {
+          size_t n = 0; uint64_t seed = 0; rs >> n >> seed;
+          Rng r(seed); std::vector<uint8_t> data(n ? n : 1); for (auto& x : data) x = uint8_t(r.next());
+          err = em->embed(data.data(), n);
+        }
+        else if (what == "data") {
+          uint32_t t = 0; size_t count = 0, rep = 0; uint64_t seed = 0; rs >> t >> count >> rep >> seed;
+          Rng r(seed); std::vector<uint8_t> data(count * 64 + 64); for (auto& x : data) x = uint8_t(r.next());
+          err = em->embed_data_array(TypeId(t), data.data(), count, rep);
+        }
+        else if (what == "elabel") {
+          size_t size = 0; int bound = 0; rs >> size >> bound;
+          Label l = em->new_label(); labs.push_back(l.id());
+          if (bound) em->bind(l);
+          mark();
+          err = em->embed_label(l, size);
+        }
+        else if (what == "edelta") {
+          size_t size = 0; int b1 = 0, b2 = 0; rs >> size >> b1 >> b2;
+          Label l1 = em->new_label(), l2 = em->new_label(); labs.push_back(l1.id()); labs.push_back(l2.id());
+          static const uint8_t pad[8] = { 0x90, 0x90, 0x90, 0x90, 0x90, 0x90, 0x90, 0x90 };
+          if (b2) em->bind(l2);
+          em->embed(pad, 8);
+          if (b1) em->bind(l1);
+          mark();
+          err = em->embed_label_delta(l1, l2, size);
+        }
+        else if (what == "section") {
+          std::string name; rs >> name; name += sfx; if (name.size() > 30) name.resize(30);
+          Section* sec = nullptr;
+          if (D.code.new_section(Out(sec), name.c_str(), name.size(), SectionFlags::kNone, 8, 0) != Error::kOk) bad = true;
+          else { labs.push_back(sec->section_id()); mark(); err = em->section(sec); back_to = D.code.text_section(); }
+        }
+        else if (what == "comment") {
+          std::string text; rs >> text;
+          err = em->comment(text.c_str(), SIZE_MAX);
+        }
+        else bad = true;
+        if (bad) parse_bad = 1;
+        std::string text, bytes;
+        if (as) {
+          text = std::string(D.logger.data(), D.logger.data_size());
+          if (!back_to && as->offset() > off0) bytes = hexstr(as->buffer_data() + off0, as->offset() - off0);
+        }
+        else if (bb) {
+          // the nodes added after `before`, one line each
+          FormatOptions fo; fo.set_flags(FormatFlags(ff));
+          fo.set_padding(FormatPaddingGroup::kRegularLine, lay_pad);
+          std::vector<BaseNode*> added;
+          if (what == "section") { if (bb->cursor()) added.push_back(bb->cursor()); }       // (section() moves the cursor to the end of that section)
+          else for (BaseNode* n = bb->cursor(); n && n != before; n = n->prev()) added.insert(added.begin(), n);
+          // an inline comment on the node itself (every node kind can carry one)
+          if (lay_comment && what != "comment" && added.size() == 1 && err == Error::kOk) added[0]->set_inline_comment(comment_text.c_str());
+          for (BaseNode* n : added) { String sb; Formatter::format_node(sb, fo, bb, n); text += sstr(sb); text += "\n"; }
+        }
+        if (em->inline_comment()) em->reset_inline_comment();
+        if (back_to) em->section(back_to);
+        char head[200];
+        snprintf(head, sizeof head, "%s{\"ff\":[%u],\"err\":%u,\"h\":%d,\"off0\":%zu,\"bytes\":\"", run > 1 ? "," : "", ff, unsigned(err), D.eh.calls, off0);
+        out_rec += head; out_rec += bytes; out_rec += "\",\"lab\":[";
+        for (size_t i = 0; i < labs.size(); i++) { if (i) out_rec += ","; out_rec += std::to_string(labs[i]); }
+        out_rec += "],\"log\":" + jstr(text) + "}";
+      }
+      out_rec += "]}\n";
+      if (parse_bad) out_rec = "{\"id\":" + id + ",\"parse\":1,\"res\":[]}\n";
+      out += out_rec;
+      flush(false);
+      continue;
+    }
 
     for (uint32_t ff : flag_sets) {
       if (ki == 0 && ++E.n > 1500) E.reinit();
@@ -456,6 +593,10 @@ int main(int argc, char** argv) {
       if (kind == "asm") {
         BaseAssembler* a = E.assembler();
         E.logger.set_flags(FormatFlags(ff));
+        E.logger.set_indentation(FormatIndentationGroup::kCode, lay_indent);
+        E.logger.set_padding(FormatPaddingGroup::kRegularLine, lay_pad);
+        E.logger.set_padding(FormatPaddingGroup::kMachineCode, lay_padmc);
+        if (lay_comment) a->set_inline_comment(comment_text.c_str());
         if (has_extra) a->set_extra_reg(extra_reg);
         a->set_inst_options(InstOptions(opts));
         size_t off0 = a->offset();
